@@ -220,7 +220,7 @@ OBLIGATIONS = [
     ('C06.O5', 'spectators do not perturb players', 'effect summary of the broadcast is confined to cursor, spectator endpoints and '
      'socket; the spectator arm of disconnect_player_at_frame only stops the endpoint.', o5),
     ('C06.O6', 'same cut-off predicate on host and spectator (= C03.O2)', 'see C03.O2', c03.o2),
-    ('C06.H', 'helpers the rules above rely on', 'the bodies of the helpers named by this property\'s rules compute what the rules assume (registry_counts, confirmed_input); see rules/helpers.py', helpers.bundle('registry_counts', 'confirmed_input')),
+    ('C06.H', 'helpers the rules above rely on', 'the bodies of the helpers named by this property\'s rules compute what the rules assume (registry_counts, confirmed_input); see rules/helpers.py', helpers.bundle('registry_counts', 'confirmed_input', 'from_inputs')),
     ('C06.I', 'initial state', 'every constructor gives the fields this property\'s rules interpret (NULL_FRAME = none / nothing yet, 0 = first frame, latches open, typestate start) the value listed in tables/initial_state.json; every field compared with NULL_FRAME anywhere is listed; see rules/initial.py', initial.rule_for('C06')),
     ('C06.C', 'lossy integer casts', 'every sign-changing cast (signed -> unsigned; NULL_FRAME is -1) and every narrowing cast to < 32 bits or from 128 bits in the crate is in range by a dominating guard, by the shape of its operand, or listed with a reason in tables/casts.json; see rules/casts.py', casts.rule),
 ]
